@@ -7,17 +7,16 @@ pub fn def() -> PropDef {
     PropDef {
         id: "C14",
         builds: BOTH,
-        rule: "every text over {L,SP,HY,W,NL,CM,TAB,NB,ZW,OP,CL} up to length N x separators x algorithms x none/hyphen x break_words x widths 0..=display width+2, MAX, empty indents; fill(fill(t)) == fill(t) under the statement's preconditions (Unicode separator: no reference fragment wider than the width when break_words is on; optimal-fit: additionally no overflowing line in the first result); non-trivial = the first fill has >= 2 lines and the precondition holds",
+        rule: "every text over {L,SP,HY,W,NL,CM,TAB,NB,ZW,OP,CL,CSI,CR} up to length N x separators x algorithms x none/hyphen x break_words x widths 0..=display width+2, MAX, empty indents; fill(fill(t)) == fill(t) under the statement's preconditions (Unicode separator: no reference fragment wider than the width when break_words is on; optimal-fit: additionally no overflowing line in the first result); non-trivial = the first fill has >= 2 lines and the precondition holds",
         assumptions: BASE_ASSUMPTIONS,
         floor: |t| t.pick(100_000, 1_000_000),
         run,
-        panics_are_verdict: false,
     }
 }
 
 fn run(r: &mut Run) -> Result<(), MachineryError> {
     let t = r.tier;
-    let alpha = [L, SP, HY, W, NL, CM, TAB, NB, ZW, OP, CL];
+    let alpha = [L, SP, HY, W, NL, CM, TAB, NB, ZW, OP, CL, CSI, CR];
     let n = t.pick(4, 5);
     let g = Gamma { seps: seps(), algs: algs_default(), spls: vec![Spl::None, Spl::Hyphen], bws: vec![true, false], indents: vec![("", "")], crlf: vec![false] };
     let bases = g.bases();
